@@ -107,6 +107,7 @@ func c19(tier string) []*explore.Scenario {
 	}
 	out = append(out, c19ChannelDoneCtxRead(1), c19ChannelDoneCtxRead(2), c19ChannelDoneCtxRead(0))
 	out = append(out, c19ChannelCtx(), c19ChannelWriters(1, 2, 2), c19ChannelWriters(2, 3, 2), c19ChannelWriters(1, 3, 1), c19ChannelWriters(0, 2, 1), c19ChannelWriters(4, 2, 1), c19HTTPShapes(), c19HTTPDuplex(), c19HTTPCtx(), c19HTTPWriteCtx(), c19HTTPRaw(), c19HTTPTruncated(), c19HTTPMapper(), c19HTTPResponseLost(), c19HTTPResetAcrossTimeout())
+	out = append(out, explore.Sharded(c19HTTPOrder("C19", 2, 2), 8)...)
 	for _, pending := range []string{"sender", "reader", "both", "none", "reader-after-abandoned-read", "write-in-flight-at-tick"} {
 		out = append(out, c19HTTPIdle(pending, bound))
 	}
@@ -332,12 +333,17 @@ func (rt *c19RT) RoundTrip(req *http.Request) (*http.Response, error) {
 	sctx, scancel := context.WithCancel(context.Background())
 	sreq := req.Clone(sctx)
 	done := make(chan *http.Response, 1)
+	early := make(chan *http.Response, 1)
 	vsched.GoNamed("http-serve", func() {
-		rec := httptest.NewRecorder()
+		rec := &c19Recorder{ResponseRecorder: httptest.NewRecorder(), early: early}
 		h.ServeHTTP(rec, sreq)
 		done <- rec.Result()
 	})
 	select {
+	case resp := <-early:
+		// the handler flushed its status before returning: that is when a real client's round trip returns
+		// (the handler goes on running on the server)
+		return resp, nil
 	case resp := <-done:
 		scancel()
 		if rt.failAfterDelivery[k] {
@@ -347,6 +353,22 @@ func (rt *c19RT) RoundTrip(req *http.Request) (*http.Response, error) {
 	case <-req.Context().Done():
 		scancel()
 		return nil, req.Context().Err()
+	}
+}
+
+// c19Recorder: a response recorder whose Flush hands the response (status and headers so far) to the waiting
+// client, as net/http does when a handler flushes before it returns.
+type c19Recorder struct {
+	*httptest.ResponseRecorder
+	early   chan *http.Response
+	flushed bool
+}
+
+func (r *c19Recorder) Flush() {
+	r.ResponseRecorder.Flush()
+	if !r.flushed {
+		r.flushed = true
+		r.early <- &http.Response{StatusCode: r.Code, Status: http.StatusText(r.Code), Header: r.Header().Clone(), Body: io.NopCloser(bytes.NewReader(nil))}
 	}
 }
 
@@ -496,6 +518,49 @@ func c19HTTPDuplex() *explore.Scenario {
 			vsched.Obs("%s", s.Summary())
 			if !s.CDone || s.CErr != io.EOF || !eqStrs(s.CRecv, s.HSent) || len(s.CRecv) != 2 {
 				vsched.Fail(fam+"|stream", "stream over the HTTP transport: %s", s.Summary())
+			}
+			srv.Stop()
+			x.Cancel()
+			y.Cancel()
+			vsched.Quiesce()
+		},
+	}
+}
+
+// c19HTTPOrder: one client-streaming call of n messages over the HTTP transport (one POST per envelope, each served
+// by a goroutine of its own on the receiving side): the handler receives the messages in the order sent, all of them,
+// and the caller gets the handler's result. The only thing that orders two envelopes on this transport is that a
+// Write returns after its envelope has been handed to the receiving side's reader.
+func c19HTTPOrder(prop string, n, bound int) *explore.Scenario {
+	fam := prop + "/http-order"
+	return &explore.Scenario{
+		Name: fmt.Sprintf("%s/http-order/n=%d/d=%d", prop, n, bound), Family: fam, Prop: prop, Bound: bound,
+		Run: func() {
+			rt := &c19RT{hosts: map[string]http.Handler{}}
+			http.DefaultTransport = rt
+			w := env.NewWorld()
+			srv := goat.NewServer("srv")
+			srv.RegisterService(&env.ServiceDesc, w)
+			ident := func(s string) (string, error) { return s, nil }
+			y := goat.NewGoatOverHttp(func(id string, rw goat.RpcReadWriter) { srv.Serve(context.Background(), rw) }, ident, goat.WithClock(env.NewClock()))
+			x := goat.NewGoatOverHttp(func(id string, rw goat.RpcReadWriter) {}, ident, goat.WithClock(env.NewClock()))
+			rt.hosts["cli"] = x
+			rt.hosts["srv"] = y
+			cc := goat.NewClientConn(x.NewConnection("srv"), "cli", "srv")
+			vsched.Settle()
+			vsched.Explore(true)
+			c := streamCase{"CStream", "sendall", "collect", n, 0, 0}
+			r := w.Rec("s", c.kind)
+			w.Handlers["s"] = c.handler()
+			vsched.GoNamed("caller-s", func() { c.runCaller(w, cc, context.Background(), r) })
+			vsched.Quiesce()
+			vsched.Obs("%s", r.Summary())
+			if !r.CDone {
+				vsched.Fail(fam+"|hang", "client-streaming call over the HTTP transport never finished: %s", r.Summary())
+			} else if !eqStrs(r.HRecv, r.CSent) || r.HStarts != 1 {
+				vsched.Fail(fam+"|per-call-order", "the caller sent %v, the handler received %v (starts %d); caller saw %v", r.CSent, r.HRecv, r.HStarts, r.CErr)
+			} else if r.CErr != io.EOF && r.CErr != nil {
+				vsched.Fail(fam+"|status", "the handler completed, the caller saw %v", r.CErr)
 			}
 			srv.Stop()
 			x.Cancel()
